@@ -179,7 +179,7 @@ class Encoder:
             mp[self.name(addr)] = {'pcs': [i + 1 for i, b in enumerate(m['pcs']) if b], 'pidx': 0 if m['pi'] is None else m['pi'] + 1,
                                    'amInt': m['ai'], 'amCh': m['ac'], 'int': m['i'], 'ch': m['c'], 'opt': m['o'],
                                    'dl': m['dl'] or 0, 'ul': m['ul'] or 0, 'rated': rated}
-        return {'st': st, 'mp': mp, 'conn': sorted(mp)}
+        return {'st': st, 'mp': mp, 'conn': sorted(mp), 'mg': e['round'], 'cands': e['cands'], 'ext': e['extracted']}
 
     def encode(self):
         out = []
@@ -206,7 +206,11 @@ class Encoder:
                 elif ev in ('Rotate', 'RotateSkip'):
                     m = self.mstate(e)
                     out.append(dict(base, e='Rotate', k='', order=[self.name(a) for a, _ in e.get('order', [])],
-                                    newopt=[self.name(a) for a in e.get('newopt', [])], round=e['round'], **m))
+                                    newopt=[self.name(a) for a in e.get('newopt', [])], **m))
+                elif ev == 'TrackerPeers':
+                    out.append(dict(base, e='TrackerPeers', k='', n=e['n'], **self.mstate(e)))
+                elif ev == 'KillEnd' or (ev == 'Tracker'):
+                    out.append(dict(base, e='Settle', k='', kill=(ev == 'KillEnd'), **self.mstate(e)))
                 elif ev in CMD:
                     reply = e.get('reply', '')
                     reply = 'SendState' if reply.startswith('SendState') else 'Load' if reply == 'LoadAndSendPiece' else reply
@@ -254,7 +258,7 @@ def geometry_module(pid, geo, peers):
                 '  OptRounds = 3\n  KALimit = 2\n  Pipeline = {1, 2, 3}\n  Rates = {0}\n  FrameKinds = {}\n  BFMenu = {}\n  Own0 = {}\n  Bugs = {}\n  HS0 = FALSE\n'
                 'INVARIANTS TypeOK OwnedImpliesStored ServedImpliesStored AdvertisedImpliesStored SilentBeforeHandshake NoDataBeforeHandshake '
                 'OwnHandshakeFirst ServeOnlyUnchoked RxShape RequestsTile AnnouncedInOrder DeferredWhileChoked ReservedBacked '
-                'AskOnlyAdvertisedAndLacked NoPanic PickSound SlotBound ViewAgreement KaBound\n'
+                'AskOnlyAdvertisedAndLacked NoPanic PickSound SlotBound ViewAgreement KaBound ExtractOnlyComplete\n'
                 'PROPERTIES THaveStable RotationPolicy\nPOSTCONDITION Report\nCHECK_DEADLOCK FALSE\n'
                 % (', '.join('"p%d"' % (i + 1) for i in range(peers)), np_))
     return d, name, cfg
@@ -264,7 +268,7 @@ INV_PROP = {
     'OwnedImpliesStored': 'C01', 'ServedImpliesStored': 'C01', 'AdvertisedImpliesStored': 'C11', 'SilentBeforeHandshake': 'C08',
     'NoDataBeforeHandshake': 'C08', 'OwnHandshakeFirst': 'C08', 'ServeOnlyUnchoked': 'C09', 'RxShape': 'C10', 'RequestsTile': 'C10',
     'AnnouncedInOrder': 'C11', 'DeferredWhileChoked': 'C11', 'ReservedBacked': 'C12', 'AskOnlyAdvertisedAndLacked': 'C12',
-    'NoPanic': 'C12', 'PickSound': 'C13', 'SlotBound': 'C14', 'ViewAgreement': 'C14', 'KaBound': 'C20', 'HaveStable': 'C12', 'THaveStable': 'C12', 'RotationPolicy': 'C14', 'TypeOK': 'C12',
+    'NoPanic': 'C12', 'ExtractOnlyComplete': 'C01', 'PickSound': 'C13', 'SlotBound': 'C14', 'ViewAgreement': 'C14', 'KaBound': 'C20', 'HaveStable': 'C12', 'THaveStable': 'C12', 'RotationPolicy': 'C14', 'TypeOK': 'C12',
 }
 
 
